@@ -16,10 +16,27 @@ base64 of the model on request lines.
   sha1 <bytes>   -> digest (hex)
   b64 <bytes>    -> base64 text (hex)
   eqci <a> <b>   -> true | false
+
+The client's half (`Penguin.ClientReq`):
+  clientreq <target> <urlhost> <psk> <hostname> <key> <name>=<value>*
+      target     hex  (path and query of the server URL as `ServerUrl` keeps it)
+      urlhost    hex or `-` (authority after any `@`)
+      psk, hostname   `none` | `some:<hex or ->`   (`--ws-psk`, `--hostname`)
+      key        hex  (the `sec-websocket-key` tungstenite drew)
+      name=value custom `--header`s in command-line order, names lower case
+    -> `sent <method> <target> <name>=<value>,…`  (header map of `buildRequest`, sorted by name, stable)
+     | `unsent:hostname` | `unsent:value:<name>`
+  clientroute <srvpsk> <obfs> <clientreq arguments…>
+    -> `unsent:…` | the server model's decision on `received (buildRequest …)`:
+       `upgrade:<accept hex>` | `fallback:<reason>` | `health` | `version`
+  parsepsk <text hex or ->   -> the key `--ws-psk <text>` configures (hex or `-`)
+  normurl <scheme> <authority hex|none> <hasport 0|1> <pathquery hex|none>
+    -> `ok <scheme> <added port|-> <target hex>` | `err:incorrect-scheme` | `err:missing-host`
 -/
 import Penguin.Basic.Bytes
 import Penguin.Basic.Loop
 import Penguin.Model.Gate
+import Penguin.Model.ClientReq
 
 open Penguin Penguin.Gate
 
@@ -82,10 +99,71 @@ def doRoute : List String → Option String
     pure s!"{decisionName cfg req}{tunnel} {showResponse (respond cfg req)}"
   | _ => none
 
+/-! ### The client's request -/
+
+def parseClientCfg : List String → Option (ClientReq.ClientCfg × Bytes)
+  | target :: urlhost :: psk :: hostname :: key :: hdrs => do
+    let target ← ofHex target
+    let urlhost ← ofHex urlhost
+    let psk ← parsePsk psk
+    let hostname ← parsePsk hostname
+    let key ← ofHex key
+    let custom ← hdrs.mapM parseHeader
+    pure ({ target := asciiString target, urlHost := urlhost, psk := psk, hostname := hostname, custom := custom }, key)
+  | _ => none
+
+def unsentName : ClientReq.Unsent → String
+  | .hostnameNotText => "unsent:hostname"
+  | .valueNotText n => "unsent:value:" ++ n
+
+def doClientReq (args : List String) : Option String := do
+  let (c, key) ← parseClientCfg args
+  match ClientReq.sent c key with
+  | .error e => pure (unsentName e)
+  | .ok r =>
+    let hs := sortHeaders r.headers
+    let htxt := if hs.isEmpty then "-" else ",".intercalate (hs.map fun (n, v) => n ++ "=" ++ hexOrDash v)
+    pure s!"sent {r.method} {hexOrDash (asciiBytes c.target)} {htxt}"
+
+def doClientRoute : List String → Option String
+  | srvpsk :: obfs :: rest => do
+    let srvpsk ← parsePsk srvpsk
+    let obfs ← parseBool obfs
+    let (c, key) ← parseClientCfg rest
+    let cfg : Config := { psk := srvpsk, obfs := obfs, notFound := [], backend := none }
+    match ClientReq.sent c key with
+    | .error e => pure (unsentName e)
+    | .ok r =>
+      let req := ClientReq.received r
+      match route cfg req with
+      | .upgrade a => pure ("upgrade:" ++ hexOrDash a)
+      | _ => pure (decisionName cfg req)
+  | _ => none
+
+def parseOptText (s : String) : Option (Option String) :=
+  if s = "none" then some none else (ofHex s).map fun b => some (asciiString b)
+
+def doNormUrl : List String → Option String
+  | [scheme, authority, hasport, pq] => do
+    let authority ← parseOptText authority
+    let hasport ← parseBool hasport
+    let pq ← parseOptText pq
+    match ClientReq.normalizeUrl { scheme := scheme, authority := authority, hasPort := hasport, pathAndQuery := pq } with
+    | .error .incorrectScheme => pure "err:incorrect-scheme"
+    | .error .missingHost => pure "err:missing-host"
+    | .ok u =>
+      let port := match u.addedPort with | some p => toString p | none => "-"
+      pure s!"ok {u.scheme} {port} {hexOrDash (asciiBytes u.target)}"
+  | _ => none
+
 def step (_ : Unit) (line : String) : Unit × String :=
   let out :=
     match tokens line with
     | "route" :: rest => (doRoute rest).getD "bad-op"
+    | "clientreq" :: rest => (doClientReq rest).getD "bad-op"
+    | "clientroute" :: rest => (doClientRoute rest).getD "bad-op"
+    | "normurl" :: rest => (doNormUrl rest).getD "bad-op"
+    | ["parsepsk", t] => match ofHex t with | some t => hexOrDash (ClientReq.parsePsk t) | none => "bad-op"
     | ["accept", k] => match ofHex k with | some k => hexOrDash (acceptOf k) | none => "bad-op"
     | ["sha1", m] => match ofHex m with | some m => toHex (Sha1.digest m) | none => "bad-op"
     | ["b64", m] => match ofHex m with | some m => hexOrDash (base64 m) | none => "bad-op"
